@@ -49,7 +49,19 @@ func c17Data(r *rng.R) *document.TemplateData {
 	d.SetVariable("n", r.Range(0, 99))
 	d.SetCondition("c", r.Bool())
 	d.SetList("xs", []interface{}{gen.Word(r, 1, 4), gen.Word(r, 1, 4)})
-	d.SetList("rows", []interface{}{map[string]interface{}{"k": gen.Word(r, 1, 4), "on": r.Bool()}, map[string]interface{}{"k": gen.Word(r, 1, 4), "on": r.Bool()}})
+	// items carry nested lists in the types a caller may naturally write them in
+	nested := func() interface{} {
+		switch r.Intn(4) {
+		case 0:
+			return []interface{}{map[string]interface{}{"m": gen.Word(r, 1, 3)}, map[string]interface{}{"m": gen.Word(r, 1, 3)}}
+		case 1:
+			return []map[string]interface{}{{"m": gen.Word(r, 1, 3)}, {"m": gen.Word(r, 1, 3)}}
+		case 2:
+			return []string{gen.Word(r, 1, 3), gen.Word(r, 1, 3)}
+		}
+		return nil
+	}
+	d.SetList("rows", []interface{}{map[string]interface{}{"k": gen.Word(r, 1, 4), "on": r.Bool(), "members": nested()}, map[string]interface{}{"k": gen.Word(r, 1, 4), "on": r.Bool(), "members": nested()}})
 	// a picture of a random format for {{#image pic}} placeholders (unique bytes per data set)
 	im := gen.MakeImage([]string{"png", "jpeg", "gif"}[r.Intn(3)], 50000+r.Intn(1<<20), r.Range(2, 9), r.Range(2, 9))
 	d.SetImageFromData("pic", im.Data, nil)
@@ -57,7 +69,7 @@ func c17Data(r *rng.R) *document.TemplateData {
 }
 
 func c17Body(r *rng.R, tag string) string {
-	parts := []string{tag + " {{x}}", "{{#if c}}yes " + tag + "{{else}}no " + tag + "{{/if}}", "{{#each xs}}<{{this}}:{{@index}}>{{/each}}", "{{#each rows}}[{{k}}{{#if on}}+{{/if}}]{{/each}}", "plain " + tag, "{{name}} and {{missing}}", "n={{n}}"}
+	parts := []string{tag + " {{x}}", "{{#if c}}yes " + tag + "{{else}}no " + tag + "{{/if}}", "{{#each xs}}<{{this}}:{{@index}}>{{/each}}", "{{#each rows}}[{{k}}{{#if on}}+{{/if}}]{{/each}}", "{{#each rows}}({{k}}:{{#each members}}{{m}}{{this}},{{/each}}){{/each}}", "plain " + tag, "{{name}} and {{missing}}", "n={{n}}"}
 	var sb strings.Builder
 	for i, n := 0, r.Range(1, 4); i < n; i++ {
 		sb.WriteString(parts[r.Intn(len(parts))])
